@@ -80,7 +80,9 @@ class SimBus:
         self.silent = set()
         self.fired = {}           # fault kind -> count (counted when it actually fires)
         self.deliveries = 0
-        self.observers = []       # callables(Frame) invoked at send time (bus monitors)
+        self.observers = []       # callables(Frame) invoked at send time (bus monitors; must not send)
+        self.post_hooks = []      # callables(Frame) invoked at the end of send(), still inside the sender's call: the place for
+                                  # nested application calls / reactive frames, so that what they send follows this frame on the bus
 
     def port(self, name):
         p = Port(self, name)
@@ -140,6 +142,8 @@ class SimBus:
         if drop:
             fr.dropped = True
             self._fire('drop')
+            for h in self.post_hooks:
+                h(fr)
             return
         if dup:
             self._fire('dup')
@@ -159,6 +163,8 @@ class SimBus:
                     t = max(sim.now + self._latency(p.name), p.last_delivery)
                     p.last_delivery = t
                     sim.at(t, (lambda p=p, fr=fr: self._deliver(p, fr)), 'rx')
+        for h in self.post_hooks:
+            h(fr)
 
     def send_sync(self, src, can_id, ext, data, fd=False):
         """Put a frame on the bus and deliver it synchronously (inside the caller's context) to every other port:
@@ -172,6 +178,8 @@ class SimBus:
         for p in self.ports:
             if p.name != src and p.deliver is not None and p.name not in self.silent:
                 self._deliver(p, fr)
+        for h in self.post_hooks:
+            h(fr)
 
     def _deliver(self, p, fr):
         if p.name in self.silent:
